@@ -250,6 +250,18 @@ class FieldFamily:
                         yield dict(opt=opt, p=p, d=2, mods=None, seq=[["inv", [0, 1], None, m1], ["inv", [0, 1], None, m2]])
                         yield dict(opt=opt, p=p, d=2, mods=None, seq=[["inv", [0, 0], None, m1], ["intops", [1, 1], 0, m1], ["intops", [0, 1], p, m2],
                                                                       ["intops", [1, 0], 2 * p, m1], ["intops", [1, 1], -1, m2]])
+            # classes derived from a used field class with another modulus
+            for p, modlist in small2.items():
+                if len(modlist) > 1:
+                    for _ in range(2):
+                        x = [rng.randrange(p), rng.randrange(1, p)]
+                        y = [rng.randrange(1, p), rng.randrange(p)]
+                        yield dict(opt=opt, p=p, d=2, mods=modlist[0], seq=[["derived", x, y, modlist[0], modlist[-1]]])
+            for p, fs in irr12.items():
+                if len(fs) > 1:
+                    x = [rng.randrange(p) for _ in range(12)]
+                    y = [rng.randrange(p) for _ in range(12)]
+                    yield dict(opt=opt, p=p, d=12, mods=fs[0][:12], seq=[["derived", x, y, fs[0][:12], fs[1][:12]]])
             # degree 12 over small primes and the real fields
             for p, fs in irr12.items():
                 for f in fs:
@@ -323,6 +335,22 @@ class FieldFamily:
                                 observed=coeffs(got), expected=want, step=step)
                 return None
             try:
+                if op == "derived":
+                    # a field class derived from an already *used* field class, overriding the modulus ("any other modulus they are
+                    # instantiated with"): parent first, then the child, then the parent again
+                    m_par, m_child = step[3], step[4]
+                    par = field_classes(p, d, m_par, opt)
+                    child = type(f"T_child_FQ{d}_{p}", (par,), {f"FQ{d}_MODULUS_COEFFS": tuple(m_child)})
+                    for klass, mm in ((par, m_par), (child, m_child), (par, m_par), (child, m_child)):
+                        ff = [m % p for m in mm] + [1]
+                        a_, b_ = klass(list(x)), klass(list(arg))
+                        for label, got, want in (("x * y", a_ * b_, model_op("mul", p, ff, x, arg, d)),
+                                                 ("x + y", a_ + b_, model_op("add", p, ff, x, arg, d))) + \
+                                ((("x / y", a_ / b_, model_op("div", p, ff, x, arg, d)),) if d == 2 else ()):
+                            if not (type(got) is klass) or [int(c) for c in got.coeffs] != want:
+                                return dict(why=f"{label} over GF({p})[w]/{list(mm)} in a class derived from a used field class differs from the field operation",
+                                            observed=[int(c) for c in got.coeffs], expected=want, step=step)
+                    continue
                 if op == "binops":
                     Y = cls(arg[0]) if d == 1 else cls(list(arg))
                     for label, got, want in (("x + y", X + Y, model_op("add", p, f, x, arg, d)),
